@@ -12,6 +12,7 @@ import (
 	"runtime"
 	"sort"
 	"strings"
+	"time"
 	"sync"
 
 	abci "github.com/cometbft/cometbft/abci/types"
@@ -43,6 +44,10 @@ func c07Scenarios(thorough bool) []c07Scenario {
 		{Name: "deposit-batch-with-bad-headers", Setup: []enga.ABlock{ev(enga.Event{Kind: "tx:hashes", N: 2})}, Block: ev(enga.Event{Kind: "tx:deposits-bad-headers"}, enga.Event{Kind: "tx:deposits", N: 2})},
 		{Name: "deposits-after-deposits", Setup: []enga.ABlock{ev(enga.Event{Kind: "tx:hashes", N: 2}), ev(enga.Event{Kind: "tx:deposits", N: 1}, enga.Event{Kind: "tx:newpubkey", Var: "existing"})}, Block: ev(enga.Event{Kind: "tx:deposits", N: 2}, enga.Event{Kind: "tx:newpubkey"})},
 		{Name: "failing-relayer-tx", Block: ev(enga.Event{Kind: "tx:newpubkey", Var: "existing"}, enga.Event{Kind: "tx:hashes", N: 1, Var: "gap"})},
+		{Name: "rejected-vote-presented-again", Setup: []enga.ABlock{ev(enga.Event{Kind: "tx:hashes", N: 1}), ev(enga.Event{Kind: "tx:replay", Var: "rewrite-context"}, enga.Event{Kind: "tx:replay", Var: "other-action"})},
+			Block: ev(enga.Event{Kind: "tx:replay", Var: "rewrite-context"}, enga.Event{Kind: "tx:replay", Var: "other-action"}, enga.Event{Kind: "tx:replay", Var: "rewrite-context"})},
+		{Name: "evidence-old-in-blocks-young-in-time", Setup: []enga.ABlock{{}, {}, {}, {}, {}}, Block: enga.ABlock{Evidence: []int{1}, EvAgeBlocks: 5, EvAgeSecs: 5}},
+		{Name: "evidence-old-in-blocks-and-time", Setup: []enga.ABlock{{}, {}, {}, {}, {Dt: 30}}, Block: enga.ABlock{Evidence: []int{1}, EvAgeBlocks: 5, EvAgeSecs: 34}},
 		{Name: "downtime+evidence", Block: enga.ABlock{Absent: []int{1}, Evidence: []int{1}}, Setup: []enga.ABlock{{Absent: []int{1}}}},
 	}
 	if thorough {
@@ -381,7 +386,7 @@ func C07Worker(scName string, idx, n int, thorough bool) {
 }
 
 func runC07(r *mc.Run) {
-	r.Rule = "for each scenario block (adversarial lock batches naming unknown validators/tokens, several validators leaving at once, relayer transactions that succeed and fail, downtime+evidence, hand-over, election) the same transactions are executed on: a base replica; a replica on which the proposal is processed in two rounds before it is finalised; a replica restarted (new App on the same DB) between FinalizeBlock and Commit; one restarted after Commit; the long-running process that executed the whole setup history itself; replicas with the wall clock shifted by +-400 days; and, for every map iteration of the FinalizeBlock goroutine, every combination of starts at range sites inside goat packages and every single deviation at sites in dependencies (runtime hook, instrumented build); oracle = equal app hash, tx codes/codespaces/gas/data, validator-update set, engine call log, store dump and next-block app hash"
+	r.Rule = "for each scenario block (adversarial lock batches naming unknown validators/tokens, several validators leaving at once, relayer transactions that succeed and fail, downtime+evidence, hand-over, election) the same transactions are executed on: a base replica; a replica on which the proposal is processed in two rounds before it is finalised; a replica restarted (new App on the same DB) between FinalizeBlock and Commit; one restarted after Commit; the long-running process that executed the whole setup history itself; replicas with the wall clock shifted by +-400 days against the real clock and set to block time +10 s / +400 d / -400 d (incl. blocks carrying evidence that is old in blocks but young in time, and old in both); and, for every map iteration of the FinalizeBlock goroutine, every combination of starts at range sites inside goat packages and every single deviation at sites in dependencies (runtime hook, instrumented build); in addition every history of a depth-2 (thorough: 3) tree over a 21-block menu is executed block by block on fresh application instances and once more on one instance living through the whole history (twin histories); oracle = equal app hash, tx codes/codespaces/gas/data, validator-update set, engine call log, store dump and next-block app hash"
 	r.Assumptions = []string{"torn writes inside the SDK's Commit are out of scope", "in dependencies one map deviation per execution is explored (thorough: also every pair of sites moved to their next start)"}
 	scs := c07Scenarios(r.Thorough())
 	self, err := os.Executable()
@@ -446,7 +451,7 @@ func runC07(r *mc.Run) {
 			return
 		}
 		// clock offsets: separate instrumented processes (the offset is process-global)
-		for _, off := range []string{"+400d", "-400d"} {
+		for _, off := range c07Clocks {
 			out, err := exec.Command(ovlBin, "c07clock", sc.Name, off).Output()
 			r.Transitions.Add(1)
 			r.Validated.Add(1)
@@ -515,14 +520,34 @@ func runC07(r *mc.Run) {
 		}
 		wg.Wait()
 	})
+	c07Twins(r)
 }
+
+// c07ClockTable lists the wall clocks of the clock replicas: shifted against the real clock,
+// and placed around the time of the block being executed (the simulated chain lives in 2023,
+// so every time-based threshold of the modules - evidence age, unlock / jail / election
+// periods - lies between "block+10s" and "block+400d" on one side and "block-400d" on the other).
+var c07ClockTable = []struct {
+	Name     string
+	Secs     int64
+	RelBlock bool
+}{
+	{"+400d", 400 * 86400, false},
+	{"-400d", -400 * 86400, false},
+	{"block+10s", 10, true},
+	{"block+400d", 400 * 86400, true},
+	{"block-400d", -400 * 86400, true},
+}
+
+var c07Clocks = func() (out []string) {
+	for _, c := range c07ClockTable {
+		out = append(out, c.Name)
+	}
+	return
+}()
 
 // C07Clock runs the scenario's block with a shifted wall clock and prints the outcome.
 func C07Clock(scName, off string) {
-	sec := int64(400 * 86400)
-	if off == "-400d" {
-		sec = -sec
-	}
 	var sc c07Scenario
 	for _, s := range c07Scenarios(true) {
 		if s.Name == scName {
@@ -531,6 +556,16 @@ func C07Clock(scName, off string) {
 	}
 	w, blk, txs := c07Prepare(sc)
 	defer w.Close()
+	var sec int64
+	for _, c := range c07ClockTable {
+		if c.Name == off {
+			sec = c.Secs
+			if c.RelBlock {
+				// the replica's clock reads (time of the block being executed) + Secs
+				sec += int64(w.N.Time.Add(blk.TimeDelta).Sub(time.Now()) / time.Second)
+			}
+		}
+	}
 	ovl.SetNowOffset(sec)
 	x, err := w.Fork()
 	must(err)
